@@ -54,6 +54,16 @@ def sweep(ck, L, fname, exp, Zs, macs, st, two_args=True, skip=()):
             for k in bad[:2]:
                 ck.violation('c01:%s:value-differs-%s' % (fname, tag), '%s returns %r %s and %r otherwise' % (fname, float(r2.v[k]), tag.replace('-', ' '), float(r.v[k])),
                              dict(call='%s(%d,%d)' % (fname, ZZ[k], MM[k]) if two_args else '%s(%d)' % (fname, ZZ[k]), config=L.config))
+        # the calls as user code writes them (direct call, local error slot tested right after it, -O2, public header): same value, and
+        # the caller sees an error exactly when the dispatch-table call reported one
+        r3 = execlib.Lib(L.config, env={'XV_DIRECT': '1'}).call(fname, ZZ, MM) if two_args else execlib.Lib(L.config, env={'XV_DIRECT': '1'}).call(fname, ZZ)
+        st['calls'] += len(ZZ)
+        bad = np.nonzero((r3.v.view('u8') != r.v.view('u8')) | ((r3.status & 1) != (r.status & 1)))[0]
+        for k in bad[:2]:
+            ck.violation('c01:%s:direct-call-from-optimised-user-code-differs' % fname,
+                         '%s called directly from optimised user code gives %r / error seen: %s; through the dispatch table %r / error: %s' % (
+                             fname, float(r3.v[k]), bool(r3.status[k] & 1), float(r.v[k]), r.msg(k) if r.err[k] else 'none'),
+                         dict(call='%s(%d,%d)' % (fname, ZZ[k], MM[k]) if two_args else '%s(%d)' % (fname, ZZ[k]), config=L.config))
     ref = np.array([exp.get((int(z), int(m)) if two_args else int(z), np.nan) for z, m in zip(ZZ, MM)])
     has = ~np.isnan(ref) & (ZZ >= 1) & (ZZ <= 120)
     st['calls'] += len(ZZ)
